@@ -50,6 +50,7 @@ func Load(dir string, needSSA bool, overlay map[string][]byte) (*Program, error)
 	mode := packages.NeedName | packages.NeedFiles | packages.NeedCompiledGoFiles | packages.NeedImports |
 		packages.NeedTypes | packages.NeedTypesSizes | packages.NeedSyntax | packages.NeedTypesInfo | packages.NeedDeps | packages.NeedModule
 	env := append(os.Environ(), "GOFLAGS=-mod=mod", "GOPROXY=off", "GOSUMDB=off", "GOTOOLCHAIN=local", "GOWORK=off")
+	overlay = normalizeIterators(dir, overlay)
 	cfg := &packages.Config{Mode: mode, Dir: dir, Tests: false, Env: env, Overlay: overlay}
 	pkgs, err := packages.Load(cfg, "./...")
 	if err != nil {
